@@ -348,3 +348,42 @@ func TailFamily() []Query {
 	}
 	return out
 }
+
+// ReversalFamily: patterns the optimiser's traversal-reversal rule qualifies (two steps, leading unbounded expansion,
+// constrained terminal node) with the pattern's source unbound or bound beforehand in each of the ways a node can be
+// bound (MATCH, OPTIONAL MATCH, through a relationship, carried through WITH), crossed with the projections that observe
+// the direction of the path.
+func ReversalFamily() []Query {
+	prefixes := []struct{ name, text string }{
+		{"unbound", ""},
+		{"match", "MATCH (s:NodeKind1) "},
+		{"optional-match", "OPTIONAL MATCH (s:NodeKind1) "},
+		{"match-step", "MATCH (u:NodeKind1)-[:EdgeKind2]->(s) "},
+		{"match-optional-step", "MATCH (u:NodeKind1 {name: 'a'}) OPTIONAL MATCH (u)-[:EdgeKind2]->(s:NodeKind2) "},
+		{"match-with", "MATCH (s:NodeKind1) WITH s "},
+		{"same-match-earlier-part", "MATCH (s:NodeKind1), "},
+	}
+	patterns := []struct{ name, text string }{
+		{"*0..", "(s)-[:EdgeKind1*0..]->(g:NodeKind2)-[:EdgeKind2]->(d:NodeKind1)"},
+		{"*1..", "(s)-[:EdgeKind1*1..]->(g:NodeKind2)-[:EdgeKind2]->(d:NodeKind1)"},
+		{"*1..+undirected", "(s)-[:EdgeKind1*1..]->(g)-[:EdgeKind2]-(d:NodeKind1)"},
+	}
+	projections := []struct{ name, text string }{
+		{"endpoints", "RETURN s, d"}, {"path", "RETURN p"}, {"relationships", "RETURN relationships(p)"}, {"nodes", "RETURN nodes(p)"}, {"count", "RETURN count(p)"},
+	}
+	var out []Query
+	for _, pre := range prefixes {
+		for _, pat := range patterns {
+			for _, pr := range projections {
+				lead := "MATCH p = "
+				prefix := pre.text
+				if pre.name == "same-match-earlier-part" {
+					lead = "p = "
+				}
+				text := prefix + lead + pat.text + " WHERE d.name = 'a' " + pr.text
+				out = append(out, Query{Text: text, Params: DefaultParams, Source: "reversal-family", Features: []string{"source:" + pre.name, "pattern:" + pat.name, "projection:" + pr.name}})
+			}
+		}
+	}
+	return out
+}
